@@ -29,9 +29,14 @@ func stormResp(dst []byte, id uint64, n int) int {
 }
 
 // TestC11AskStorm: "even when many asks to many peers are outstanding concurrently".
-func TestC11AskStorm(t *testing.T) {
-	const sub = "C11.ask_storm"
-	ev.Rule(sub, "rapid: ask-capable stacks over the in-memory transport (message-box with 1-3 receive workers on the default single-packet fast path, multiplexers, bare virtual swarm; depth 0-2; in one case of four a message-box swarm over a transport that delivers every datagram twice), 2-4 nodes each serving with 1-8 ServeAsk loops; 4-12 asker goroutines spread over the nodes issue 20-100 asks each without pause to generated destinations, reusing their response buffer from ask to ask; a request is (8-byte id, wanted response length: one packet, near the packet limit or multi-part); the handler answers with the id repeated to that length. Oracle: a successful Ask returns exactly the wanted length and every byte belongs to its own id; the handler saw the asker's address; the response buffer holds nothing else after Ask returned. non-trivial = at least 4 asks were outstanding at one node at some moment; distinct by (spec, nodes, askers, sizes)")
+func TestC11AskStorm(t *testing.T) { askStorm(t, "C11.ask_storm") }
+
+// The same histories decide C14's ownership clause for asks: the message a handler is given is its own (it scribbles over
+// it), and nothing the handler does reaches memory the asker owns.
+func TestC14AskStormBuffers(t *testing.T) { askStorm(t, "C14.ask_storm_buffers") }
+
+func askStorm(t *testing.T, sub string) {
+	ev.Rule(sub, "rapid: ask-capable stacks over the in-memory transport (message-box with 1-3 receive workers on the default single-packet fast path, multiplexers, bare virtual swarm; depth 0-2; in one case of four a message-box swarm over a transport that delivers every datagram twice), 2-4 nodes each serving with 1-8 ServeAsk loops; 4-12 asker goroutines spread over the nodes issue 20-100 asks each without pause to generated destinations, reusing their response buffer from ask to ask; a request is (8-byte id, wanted response length: one packet, near the packet limit or multi-part); the handler scribbles over the message it was given and answers with the id repeated to that length. Oracle: the asker's request buffer is unchanged after Ask; a successful Ask returns exactly the wanted length and every byte belongs to its own id; the handler saw the asker's address; the response buffer holds nothing else after Ask returned. non-trivial = at least 4 asks were outstanding at one node at some moment; distinct by (spec, nodes, askers, sizes)")
 	rapid.Check(t, func(t *rapid.T) {
 		spec := genSpec(t, specOpts{maxDepth: 2, bases: []string{"mem"}, needAsk: true, noKinds: map[string]bool{"quic": true, "frag": true, "p2pke": true}, honestFrag: true})
 		if rapid.IntRange(0, 3).Draw(t, "duplicatingTransport") == 0 {
@@ -98,6 +103,10 @@ func TestC11AskStorm(t *testing.T) {
 							if from < n && addrText(req.Src) != askerAddr[from] {
 								problem("node %d: request %x of node %d arrived with source %s", i, id, from, addrText(req.Src))
 							}
+							// the message belongs to the handler: it may scribble over it
+							for j := range req.Payload {
+								req.Payload[j] = 0xEE
+							}
 							if want > len(resp) {
 								return -1
 							}
@@ -138,9 +147,13 @@ func TestC11AskStorm(t *testing.T) {
 						}
 					}
 					actx, cf := context.WithTimeout(ctx, 10*time.Second)
+					reqCopy := append([]byte{}, req...)
 					nn, err := w.Nodes[from].A.Ask(actx, resp[:mtu], w.Nodes[to].Local(), p2p.IOVec{req})
 					cf()
 					outstanding[from].Add(-1)
+					if !bytes.Equal(req, reqCopy) {
+						problem("ask %x (node %d -> %d): the asker's request buffer reads % x after Ask, it held % x (the handler's writes to its own message reached the asker's memory)", id, from, to, req, reqCopy)
+					}
 					if err != nil {
 						failed.Add(1)
 						continue
